@@ -73,7 +73,16 @@ def writable_ok(f):
 
 
 def gen_cases(d, by_name, rng, tier, has_builder=False):
-    """-> list of scenarios (r0, [op]); op = ('G',f,i) | ('W',f,i,v) | ('S',f,i,v) | ('R',)"""
+    """-> list of scenarios (r0, [op]); op = ('G',f,i) | ('W',f,i,v) | ('S',f,i,v) | ('R',) | ('B',args) | ('I',)"""
+    scen = gen_cases_(d, by_name, rng, tier, has_builder)
+    if d['base'] not in NATIVE:
+        # an arbitrary-int base is stored in a wider integer: after writing, look at the storage itself (state above bit N-1
+        # is invisible to raw_value() and to every getter)
+        scen = [(r0, ops + [('I',)]) if any(o[0] in 'WSB' for o in ops) else (r0, ops) for r0, ops in scen]
+    return scen
+
+
+def gen_cases_(d, by_name, rng, tier, has_builder=False):
     W = d['base']
     scen = []
     quick = tier == 'quick'
@@ -172,6 +181,8 @@ def coq_op(o):
         return '(OpSet %s %d %d)' % (cstr(o[1]), o[2], o[3])
     if o[0] == 'B':
         return '(OpBuild [%s])' % '; '.join(str(x) for x in o[1])
+    if o[0] == 'I':
+        return 'OpStore'
     return 'OpRaw'
 
 
@@ -212,4 +223,6 @@ def gen_field_cases(d, f, kind, by_name, rng, n_random=300):
                     ops += [('G', g['name'], j) for g in d['fields'] if 'r' in g['acc'] for j in range(min(fcount(g), 3))]
                     ops.append(('R',))
                     scen.append((r, ops))
+    if d['base'] not in NATIVE:
+        scen = [(r0, ops + [('I',)]) if any(o[0] in 'WS' for o in ops) else (r0, ops) for r0, ops in scen]
     return scen
